@@ -77,7 +77,12 @@ func runTestCasesForServer(
 		results.failedToStart(testCases, fmt.Errorf("error starting server: %w", err))
 		return
 	}
-	defer serverProcess.abort()
+	defer func() {
+		// On every path, don't return (and so free up a server slot)
+		// until the server process has actually ended.
+		serverProcess.abort()
+		_ = serverProcess.result()
+	}()
 	serverProcess.whenDone(func(_ error) {
 		procCancel()
 	})
